@@ -103,6 +103,51 @@ theorem decode_enc {d : IndexData} (hc : d.Canon) (pre post : Bytes) (hoff : pre
 theorem numItems_lt {d : IndexData} (hc : d.Canon) : d.numItems < 4294967296 := by
   cases d <;> simp only [IndexData.numItems, IndexData.Canon] at * <;> omega
 
+/-! ### the store bytes an encoding occupies are what the reader's budget counts -/
+theorem flatten_map_length (l : List Nat) (f : Nat → Bytes) (w : Nat) (hw : ∀ x, (f x).length = w) :
+    ((l.map f).flatten).length = w * l.length := by
+  induction l with
+  | nil => simp
+  | cons x xs ih => simp [hw, ih, Nat.mul_succ]; omega
+
+/-- the string loop over `k` terminated, NUL-free strings consumes exactly them -/
+theorem strConsumed_enc (l : List Bytes) (post : Bytes) (h : ∀ s ∈ l, (0 : UInt8) ∉ s) :
+    strConsumed l.length ((l.map (· ++ [0])).flatten ++ post) = ((l.map (· ++ [0])).flatten).length := by
+  induction l with
+  | nil => rfl
+  | cons s ss ih =>
+    simp only [List.map_cons, List.flatten_cons, List.append_assoc, List.length_cons, strConsumed,
+      List.cons_append, List.nil_append]
+    rw [takeTill0_append s _ (h s (by simp))]
+    simp only
+    rw [ih (fun y m => h y (by simp [m]))]
+    simp only [List.length_append, List.length_cons]
+    omega
+
+/-- **the budget charges an encoding its own length**: decoding canonical data at the offset where `IndexData::append`
+put it uses exactly the bytes of the encoding (alignment padding is not charged) -/
+theorem decodeUsed_enc {d : IndexData} (hc : d.Canon) (pre post : Bytes) :
+    decodeUsed (pre ++ d.enc ++ post) pre.length d.numItems d = d.enc.length := by
+  cases d with
+  | null => rfl
+  | char b => rfl
+  | int8 b => rfl
+  | bin b => rfl
+  | int16 l => simp only [decodeUsed, IndexData.enc]; rw [flatten_map_length l be16 2 (fun _ => rfl)]
+  | int32 l => simp only [decodeUsed, IndexData.enc]; rw [flatten_map_length l be32 4 (fun _ => rfl)]
+  | int64 l => simp only [decodeUsed, IndexData.enc]; rw [flatten_map_length l be64 8 (fun _ => by simp [be64, be32_length])]
+  | str s =>
+    simp only [decodeUsed, IndexData.enc, List.append_assoc, List.drop_left, List.cons_append, List.nil_append]
+    rw [takeTill0_append s post hc.1]
+    simp only [List.length_append, List.length_cons]
+    exact Nat.min_eq_left (by omega)
+  | strArray l =>
+    simp only [decodeUsed, IndexData.enc, IndexData.numItems, List.append_assoc, List.drop_left]
+    exact strConsumed_enc l post (fun s m => (hc.2 s m).1)
+  | i18n l =>
+    simp only [decodeUsed, IndexData.enc, IndexData.numItems, List.append_assoc, List.drop_left]
+    exact strConsumed_enc l post (fun s m => (hc.2 s m).1)
+
 /-! ### layout invariant -/
 theorem layout_prefix (rs : List (Nat × IndexData)) (store : Bytes) : store <+: (layout rs store).2 := by
   induction rs generalizing store with
@@ -137,6 +182,19 @@ theorem layout_inv (rs : List (Nat × IndexData)) (store : Bytes) :
       · simp only [layout]; rw [← hp]; simp only [List.length_append, List.length_replicate]; omega
     · simp only [layout]
       exact ih _ e he
+
+/-- **`from_entries` lays the data out one record after the other**: the encodings of all records, and the store the
+layout started from, fit in the final store (the rest is alignment padding) -/
+theorem layout_enc_sum (rs : List (Nat × IndexData)) (store : Bytes) :
+    ((layout rs store).1.map fun e => e.data.enc.length).sum + store.length ≤ (layout rs store).2.length := by
+  induction rs generalizing store with
+  | nil => simp [layout]
+  | cons r rs ih =>
+    obtain ⟨tag, d⟩ := r
+    simp only [layout, List.map_cons, List.sum_cons]
+    have := ih (store ++ List.replicate (padTo store.length d.align) 0 ++ d.enc)
+    simp only [List.length_append, List.length_replicate] at this
+    omega
 
 end RpmVerif.Hdr
 
@@ -175,7 +233,7 @@ theorem fromEntries_wf {recs : List (Nat × IndexData)} {regionTag : Nat} (ok : 
   have hlen : sorted.length = recs.length := by rw [← hs]; exact List.length_mergeSort recs
   have hlay := layout_inv sorted []
   have htags := layout_tags sorted []
-  refine ⟨?_, rfl, ?_, ?_, ?_, ?_⟩
+  refine ⟨?_, rfl, ?_, ?_, ?_, ?_, ?_⟩
   · simp [layout_length]
   · show sorted.length + 1 < 4294967296
     rw [hlen]; exact ok.count
@@ -214,5 +272,38 @@ theorem fromEntries_wf {recs : List (Nat × IndexData)} {regionTag : Nat} (ok : 
       show decode ((layout sorted []).2 ++ regionTrailer regionTag sorted.length) _ _ _ = _
       rw [hfin]
       simpa [List.append_assoc] using this
+  · -- the budget: the region trailer (16 bytes at the end) + the encodings of the records, laid out one after the other
+    show usedSum ((layout sorted []).2 ++ regionTrailer regionTag sorted.length)
+        (⟨regionTag, .bin (regionTrailer regionTag sorted.length), (layout sorted []).2.length, 16⟩ :: (layout sorted []).1)
+      ≤ ((layout sorted []).2 ++ regionTrailer regionTag sorted.length).length
+    rw [usedSum_cons]
+    have hrest : usedSum ((layout sorted []).2 ++ regionTrailer regionTag sorted.length) (layout sorted []).1
+        = ((layout sorted []).1.map fun e => e.data.enc.length).sum := by
+      unfold usedSum
+      congr 1
+      apply List.map_congr_left
+      intro e he
+      obtain ⟨pre, post, hfin, hpre, hcnt, hend⟩ := hlay e he
+      have hm : (e.tag, e.data) ∈ sorted := by
+        rw [← htags]; exact List.mem_map_of_mem (f := fun e => (e.tag, e.data)) he
+      have hcan := ok.canon _ ((hmem _).mp hm)
+      have := decodeUsed_enc hcan pre (post ++ regionTrailer regionTag sorted.length)
+      rw [hcnt, ← hpre, hfin]
+      simpa [List.append_assoc] using this
+    have hsum := layout_enc_sum sorted []
+    rw [hrest]
+    simp only [decodeUsed, List.length_append, regionTrailer_length, List.length_nil] at hsum ⊢
+    omega
+
+end RpmVerif.Hdr
+
+namespace RpmVerif.Hdr
+
+/-- **`from_entries` lays the entries out WITHOUT overlap**: the store bytes the entries of a built header occupy — as the
+reader's budget counts them (`decodeUsed`: the region trailer's 16 bytes, every record's encoding) — are together at most
+the data section. So every header the builder emits passes the budget check of `parse_header`. -/
+theorem fromEntries_within_budget {recs : List (Nat × IndexData)} {regionTag : Nat} (ok : RecsOk recs regionTag) :
+    usedSum (fromEntries recs regionTag).store (fromEntries recs regionTag).entries ≤ (fromEntries recs regionTag).store.length :=
+  (fromEntries_wf ok).budget
 
 end RpmVerif.Hdr
